@@ -2,8 +2,8 @@
 (* Property-level specification of promise pipelining (answer.go) and its     *)
 (* trace specification (C11).                                                  *)
 (*                                                                             *)
-(* World of one execution: promises "p" and "q" (q only used as the target of  *)
-(* Join), each created with its own instrumented pipeline caller; a result     *)
+(* World of one execution: promises "p", "q", "r" (Join links one onto         *)
+(* another), each created with its own instrumented pipeline caller; a result  *)
 (* whose pointer field 0 is the instrumented capability "R" (kind "cap") or    *)
 (* null (kind "nocap").  Paths: "f0" = field 0 of the result, "root" = the     *)
 (* result itself (never a capability).                                         *)
@@ -21,21 +21,24 @@ EXTENDS Integers, Sequences, FiniteSets, TLC, Json
 CONSTANTS Threads, Handles
 
 Tr == ndJsonDeserialize("promtrace.ndjson")
-Promises == {"p", "q"}
+Promises == {"p", "q", "r"}
 
-VARIABLES l, pst, pcin, hd, pend, relc
-vars == <<l, pst, pcin, hd, pend, relc>>
+VARIABLES l, pst, pcin, hd, pend, relc, par
+vars == <<l, pst, pcin, hd, pend, relc, par>>
 
 NoOp == [op |-> "none"]
 InitState == /\ pst = [x \in Promises |-> "unres"]
              /\ pcin = [x \in Promises |-> 0]
              /\ hd = [h \in Handles |-> [p |-> "none", path |-> ""]]
              /\ pend = [t \in Threads |-> NoOp]
-             /\ relc = {}          \* promises whose pipelined clients have been released
+             /\ relc = {}          \* promises on which ReleaseClients has been called
+             /\ par = [x \in Promises |-> "none"]    \* the promise x was joined onto (while that one was unresolved)
 Init == l = 1 /\ InitState
 
 RECURSIVE Rep(_)
-Rep(x) == IF pst[x] = "joined" THEN Rep("q") ELSE x        \* only p joins, and only onto q
+Rep(x) == IF pst[x] = "joined" THEN Rep(par[x]) ELSE x     \* programs build no cycles
+\* the promises that share one outcome and one set of pipelined clients: those are released when every one of them has been asked to
+Comp(x) == { y \in Promises : Rep(y) = Rep(x) }
 Resolved(x) == pst[Rep(x)] \in {"cap", "nocap", "err"}
 
 \* where a call on (promise x, path) goes right now
@@ -51,13 +54,14 @@ Consume == l' = l + 1
 Reset == /\ Ev("reset") /\ Consume
          /\ pst' = [x \in Promises |-> "unres"] /\ pcin' = [x \in Promises |-> 0]
          /\ hd' = [h \in Handles |-> [p |-> "none", path |-> ""]] /\ pend' = [t \in Threads |-> NoOp] /\ relc' = {}
+         /\ par' = [x \in Promises |-> "none"]
 
 Start == /\ Ev("start") /\ Consume
          /\ LET e == Tr[l] IN
             /\ pend[e.t] = NoOp
-            /\ pend' = [pend EXCEPT ![e.t] = [op |-> e.op, p |-> e.p, path |-> e.path, h |-> e.h, kind |-> e.kind,
+            /\ pend' = [pend EXCEPT ![e.t] = [op |-> e.op, p |-> e.p, path |-> e.path, h |-> e.h, kind |-> e.kind, to |-> e.to,
                                               lin |-> FALSE, result |-> "", dest |-> "", delivered |-> FALSE]]
-         /\ UNCHANGED <<pst, pcin, hd, relc>>
+         /\ UNCHANGED <<pst, pcin, hd, relc, par>>
 
 Lin(t) ==
   /\ pend[t] # NoOp /\ ~pend[t].lin
@@ -75,8 +79,9 @@ Lin(t) ==
             /\ hd[o.h].p # "none"
             /\ \/ pend' = [pend EXCEPT ![t].lin = TRUE, ![t].dest = Dest(hd[o.h].p, hd[o.h].path),
                                        ![t].result = IF Dest(hd[o.h].p, hd[o.h].path) = "err:null" THEN "err" ELSE Dest(hd[o.h].p, hd[o.h].path)]
-               \* the client is borrowed from the promise: once ReleaseClients ran it is released and calls fail
-               \/ /\ hd[o.h].p \in relc
+               \* the client is borrowed from the promise: once ReleaseClients was called on every promise that shares its
+               \* outcome the client is released and calls fail
+               \/ /\ Comp(hd[o.h].p) \subseteq relc
                   /\ pend' = [pend EXCEPT ![t].lin = TRUE, ![t].dest = "err", ![t].result = "err"]
             /\ UNCHANGED <<pst, hd>>
        [] o.op \in {"Fulfill", "Reject"} ->
@@ -84,9 +89,10 @@ Lin(t) ==
             /\ pst' = [pst EXCEPT ![o.p] = IF o.op = "Reject" THEN "err" ELSE o.kind]
             /\ pend' = [pend EXCEPT ![t].lin = TRUE, ![t].result = "ok"]
             /\ UNCHANGED hd
-       [] o.op = "Join" ->            \* p joins q
-            /\ pst["p"] = "unres"
-            /\ pst' = [pst EXCEPT !["p"] = "joined"]
+       [] o.op = "Join" ->            \* o.p joins o.to: linked to it while it is unresolved, else o.p takes its outcome at once
+            /\ pst[o.p] = "unres"
+            /\ IF Resolved(o.to) THEN pst' = [pst EXCEPT ![o.p] = pst[Rep(o.to)]] /\ par' = par
+                                  ELSE pst' = [pst EXCEPT ![o.p] = "joined"] /\ par' = [par EXCEPT ![o.p] = o.to]
             /\ pend' = [pend EXCEPT ![t].lin = TRUE, ![t].result = "ok"]
             /\ UNCHANGED hd
        [] o.op = "Struct" ->          \* waits for resolution
@@ -96,12 +102,13 @@ Lin(t) ==
        [] o.op = "ReleaseClients" ->  \* waits for resolution
             /\ Resolved(o.p)
             /\ pend' = [pend EXCEPT ![t].lin = TRUE, ![t].result = "ok"]
-            /\ relc' = relc \cup {o.p} \cup (IF pst["p"] = "joined" THEN {"p", "q"} ELSE {})
+            /\ relc' = relc \cup {o.p}
             /\ UNCHANGED <<pst, hd>>
        [] o.op = "Done" ->            \* non-blocking poll of Answer.Done
             /\ pend' = [pend EXCEPT ![t].lin = TRUE, ![t].result = IF Resolved(o.p) THEN "closed" ELSE "open"]
             /\ UNCHANGED <<pst, hd>>
   /\ (pend[t].op # "ReleaseClients" => UNCHANGED relc)
+  /\ (pend[t].op # "Join" => UNCHANGED par)
   /\ UNCHANGED <<l, pcin>>
 
 End == /\ Ev("end") /\ Consume
@@ -113,7 +120,7 @@ End == /\ Ev("end") /\ Consume
           \* resolution waits for the calls that went to the pipeline caller
           /\ (o.op \in {"Fulfill", "Reject", "Join"} => pcin[o.p] = 0)
           /\ pend' = [pend EXCEPT ![e.t] = NoOp]
-       /\ UNCHANGED <<pst, pcin, hd, relc>>
+       /\ UNCHANGED <<pst, pcin, hd, relc, par>>
 
 \* instrumented pipeline caller of promise x entered by thread t
 PcEnter == /\ Ev("pc-enter") /\ Consume
@@ -122,21 +129,21 @@ PcEnter == /\ Ev("pc-enter") /\ Consume
               /\ o.dest = "pcaller:" \o e.k
               /\ pend' = [pend EXCEPT ![e.t].delivered = TRUE]
               /\ pcin' = [pcin EXCEPT ![e.k] = @ + 1]
-           /\ UNCHANGED <<pst, hd, relc>>
+           /\ UNCHANGED <<pst, hd, relc, par>>
 PcExit == /\ Ev("pc-exit") /\ Consume
           /\ pcin[Tr[l].k] > 0 /\ pcin' = [pcin EXCEPT ![Tr[l].k] = @ - 1]
-          /\ UNCHANGED <<pst, hd, pend, relc>>
+          /\ UNCHANGED <<pst, hd, pend, relc, par>>
 \* the capability in the result received a call from thread t
 SendEnter == /\ Ev("send-enter") /\ Consume
              /\ LET e == Tr[l]  o == pend[e.t] IN
                 /\ o # NoOp /\ o.op \in {"PSend", "CCall"} /\ o.lin /\ ~o.delivered
                 /\ o.dest = "sent:R"
                 /\ pend' = [pend EXCEPT ![e.t].delivered = TRUE]
-             /\ UNCHANGED <<pst, pcin, hd, relc>>
-SendExit == Ev("send-exit") /\ Consume /\ UNCHANGED <<pst, pcin, hd, pend, relc>>
+             /\ UNCHANGED <<pst, pcin, hd, relc, par>>
+SendExit == Ev("send-exit") /\ Consume /\ UNCHANGED <<pst, pcin, hd, pend, relc, par>>
 Quiesce == /\ Ev("quiesce") /\ Consume /\ \A t \in Threads : pend[t] = NoOp
            /\ \A x \in Promises : pcin[x] = 0
-           /\ UNCHANGED <<pst, pcin, hd, pend, relc>>
+           /\ UNCHANGED <<pst, pcin, hd, pend, relc, par>>
 \* there is deliberately no action for a "shutdown" event of R: the result still references it
 
 Next == Reset \/ Start \/ End \/ PcEnter \/ PcExit \/ SendEnter \/ SendExit \/ Quiesce \/ (\E t \in Threads : Lin(t))
